@@ -63,7 +63,7 @@ def inst_cpp_text(ins):
 
 
 def inst_drv_text(ins, reals):
-    out = ['N %d %d %d %d' % (ins['id'], len(ins['vs']), len(ins['cs']), len(ins['ops']))]
+    out = ['N %d %d %d %d %s' % (ins['id'], len(ins['vs']), len(ins['cs']), len(ins['ops']), ins.get('kind', 'I'))]
     for d, w, s in ins['vs']:
         out.append('v %s %s %s' % (fr_hex(d), fr_hex(w), fr_hex(s)))
     for l, r, g, e in ins['cs']:
@@ -156,7 +156,7 @@ def parse_drv(txt):
             continue
         if t[0] == 'I':
             cur = int(t[1])
-            res[cur] = {'m': {}, 's': {}, 'd': {}, 'k': {}, 'g': {}, 'i': {}}
+            res[cur] = {'m': {}, 's': {}, 'd': {}, 'k': {}, 'g': {}, 'i': {}, 't': {}, 'q': {}}
         elif cur is None:
             continue
         elif t[0] == 'm':
@@ -167,12 +167,32 @@ def parse_drv(txt):
                 ip, ib, ia, iu = t.index('P'), t.index('B'), t.index('A'), t.index('U')
                 res[cur]['m'][k] = {'status': 'ok', 'tie': t[3] == 'T1', 'wf': t[4] != 'W0', 'x': [parse_hexq(x) for x in t[ip + 1:ib]],
                                     'B': [int(b) for b in t[ib + 1:ia]], 'A': t[ia + 1], 'U': t[iu + 1]}
+        elif t[0] == 't':
+            # the static Solver model (Vpsc/StaticModel.v) on a static instance
+            k = int(t[1])
+            if t[2] == 'ok':
+                ip, ib, ia = t.index('P'), t.index('B'), t.index('A')
+                res[cur]['t'][k] = {'status': 'ok', 'tie': t[3] == 'T1', 'wf': t[4] != 'W0', 'x': [parse_hexq(x) for x in t[ip + 1:ib]],
+                                    'B': [int(b) for b in t[ib + 1:ia]], 'A': t[ia + 1]}
+            elif t[2] == 'throw_unsat':
+                res[cur]['t'][k] = {'status': 'throw_unsat', 'thrown': int(t[3]), 'tie': t[4] == 'T1'}
+            else:
+                res[cur]['t'][k] = {'status': t[2], 'tie': False}
         elif t[0] == 'i':
             # invariants (VpscInvB.all_invb) on every state the model visited while executing op k: ok, #states, mask
             k = int(t[1])
             prev = res[cur]['i'].get(k)
             res[cur]['i'][k] = {'ok': t[2] == '1' and (prev is None or prev['ok']), 'states': int(t[3]) if prev is None else prev['states'],
                                 'mask': int(t[4]) | (prev['mask'] if prev else 0)}
+        elif t[0] == 'q':
+            # C02 stationarity of the recomputed multipliers (VpscKktB.stationarityb) on every state visited by op k:
+            # ok, #states, #variables with fresh block statistics at return, proved gap bound and min multiplier at return
+            def _f(x):
+                try:
+                    return float(x)
+                except ValueError:
+                    return None
+            res[cur]['q'][int(t[1])] = {'ok': t[2] == '1', 'states': int(t[3]), 'fresh': int(t[4]), 'gap': _f(t[5]), 'minlm': _f(t[6])}
         elif t[0] == 's':
             res[cur]['s'][int(t[1])] = t[2] == '1'
         elif t[0] == 'd':
@@ -430,6 +450,44 @@ def eval_corr(ins, reals, drv, impl, postol=Fr(1, 10 ** 9)):
         if tie_seen:
             return 'tie', detail
         return 'diff', detail
+    return 'ok', None
+
+
+def eval_corr_static(ins, reals, drv, postol=Fr(1, 10 ** 9)):
+    """static Solver: extracted StaticModel vs implementation.  returns (status, detail): ok | tie | diff.
+    Exact comparison of: normal return / thrown UnsatisfiedConstraint incl. the index of the reported constraint,
+    block partition, active flags; positions to 1e-9*scale.  Instances in which the model made a control-flow comparison
+    between keys closer than 1e-7 (tie flag) are counted separately."""
+    d = drv or {}
+    ts = d.get('t') or {}
+    for r in reals:
+        k = r['op']
+        m = ts.get(k)
+        if m is None:
+            return 'diff', {'op_index': k, 'what': 'static model produced no result'}
+        tie = m.get('tie', False)
+        bad = lambda det: ('tie' if tie else 'diff', det)
+        if m['status'] == 'out_of_fuel':
+            return 'diff', {'op_index': k, 'what': 'static model ran out of fuel / null heap', 'impl_status': r['status']}
+        if r['status'] != 'ok' or m['status'] != 'ok':
+            if r['status'] == 'ok' or m['status'] == 'ok' or r['status'] != 'throw_unsatisfied':
+                return bad({'op_index': k, 'what': 'status differs', 'impl_status': r['status'], 'model_status': m['status'],
+                            'impl_thrown': r.get('thrown'), 'model_thrown': m.get('thrown')})
+            if r.get('thrown') != m.get('thrown'):
+                return bad({'op_index': k, 'what': 'both report an unsatisfied constraint but not the same one',
+                            'impl_thrown': r.get('thrown'), 'model_thrown': m.get('thrown')})
+            continue
+        if not r['finite']:
+            return 'diff', {'op_index': k, 'what': 'implementation produced non-finite positions'}
+        if not m.get('wf', True):
+            return 'diff', {'op_index': k, 'what': 'the static MODEL state returned violates act_inv'}
+        vs, cs = cons_at(ins, k)
+        sc = problem_scale(vs, cs, m['x'])
+        dev = max([abs(a - b) for a, b in zip(m['x'], r['x'])] or [Fr(0)])
+        if m['A'] == r['A'] and m['B'] == r['B'] and dev <= postol * sc:
+            continue
+        return bad({'op_index': k, 'what': 'static model and implementation differ', 'impl': {'A': r['A'], 'B': r['B'], 'x': r['xf']},
+                    'model': {'A': m['A'], 'B': m['B'], 'x': [float(x) for x in m['x']]}, 'max_pos_dev': float(dev)})
     return 'ok', None
 
 
